@@ -21,8 +21,10 @@ BREAKING = [
     dict(id="b001", file=Q, old="                return self._equiv / other._equiv\n        raise TypeError(f\"Can't compare a unit to",
          new="                return other._equiv / self._equiv\n        raise TypeError(f\"Can't compare a unit to", props=["C01", "C04"]),
     dict(id="b002", file=Q, old="                return factor * self.amount", new="                return self.amount / factor", props=["C01"]),
-    dict(id="b003", file=Q, old="            unit._equiv = define_as.normalized().num_elem or ONE",
-         new="            unit._equiv = define_as.num_elem or ONE", props=["C01"]),
+    dict(id="b003", file=Q, old="            unit._equiv = ONE * (define_as.normalized().num_elem or ONE)",
+         new="            unit._equiv = ONE * (define_as.num_elem or ONE)", props=["C01"]),
+    dict(id="b006", file=Q, old="            unit._equiv = ONE * (define_as.normalized().num_elem or ONE)",
+         new="            unit._equiv = define_as.normalized().num_elem or ONE", props=["C01"]),
     dict(id="b004", file=Q, old="        return equiv_amount * to_unit", new="        return equiv_amount * self.unit", props=["C01"]),
     dict(id="b005", file=Q, old="                raise IncompatibleUnitsError(msg, self.__class__,\n                                             unit.qty_cls) from None",
          new="                raise UnitConversionError(msg, self.__class__,\n                                          unit.qty_cls) from None", props=["C01"]),
